@@ -118,6 +118,25 @@ def gen_spec(rng, nmax=8, p_lit=0.2, p_dep=0.25, p_kw=0.3, cyclic=False):
     return {"nodes": nodes, "deps": deps}
 
 
+def add_literal_cycle(rng, spec):
+    """Close a dependency cycle that passes through a fresh, CONTRACTIBLE literal (one predecessor, one successor, plain
+    dependencies only): x -> L -> x, or x -> L -> y -> x.  `_prune_literal_if_trivial` replaces L by pred x succ edges, so the
+    cycle survives only as the self-loop x -> x (or as y -> x -> y) - it must still be reported.  Returns a node on the cycle."""
+    calls = [nd["id"] for nd in spec["nodes"] if nd["kind"] == "call"]
+    if not calls:
+        return None
+    x = rng.choice(calls)
+    lit = len(spec["nodes"])
+    spec["nodes"].append({"id": lit, "kind": "lit", "scope": []})
+    others = [c for c in calls if c != x]
+    if others and rng.random() < 0.5:
+        y = rng.choice(others)
+        spec["deps"] += [[x, lit], [lit, y], [y, x]]
+    else:
+        spec["deps"] += [[x, lit], [lit, x]]
+    return x
+
+
 def gen_hub_spec(rng):
     """A plan built around literal JUNCTIONS: a literal with m predecessors and n successors, all through plain dependency
     edges (the shape `_prune_literal_if_trivial` contracts when m*n <= m+n, and keeps otherwise), optionally two such
